@@ -1574,7 +1574,10 @@ BTree_findRangeEnd(BTree *self, PyObject *keyarg, int low, int exclude_equal,
             Py_INCREF(pbucket);
         }
         UNLESS(PER_USE(pbucket))
+        {
+            Py_DECREF(pbucket);
             goto Done;
+        }
         result = 1;
         *bucket = pbucket;  /* transfer ownership to caller */
         *offset = pbucket->len - 1;
